@@ -9,6 +9,8 @@ use vstd::std_specs::cmp::OrdSpec;
 //@include prelude/seqmutex.rs
 //@map /Mutex<BTreeMap<String, u64>>/ => VxSeqMutex<VxVerMap>
 //@map /key\.to_string\(\)/ => vx_to_string(key)
+//@map /BTreeMap<String, u64>/ => VxVerMap
+//@map /BTreeMap::new\(\)/ => VxVerMap::new()
 //@map /let (mut )?versions = self\.versions\.lock\(\)\.vx_expect\(\);/ =>
 //@map /(?<![\w.])versions\./ => self.versions.val.
 //@map /\bSignerId\b/ => [u8; 16]
@@ -44,6 +46,11 @@ impl VxVerMap {
         ensures r.is_some() == self@.dom().contains(key@), r.is_some() ==> *(r->Some_0) == self@[key@] { unimplemented!() }
     #[verifier::external_body]
     pub fn insert(&mut self, key: String, v: u64) -> (r: Option<u64>) ensures final(self)@ == old(self)@.insert(key@, v) { unimplemented!() }
+    #[verifier::external_body]
+    pub fn new() -> (r: VxVerMap) ensures r@ == Map::<Seq<char>, u64>::empty() { unimplemented!() }
+    // `for (key, value) in staged.into_iter() { self.insert(key, value); }`
+    #[verifier::external_body]
+    pub fn vx_extend(&mut self, staged: VxVerMap) ensures final(self)@ == old(self)@.union_prefer_right(staged@) { unimplemented!() }
 }
 // redb::Database with the single table `kv` (R5): committed content; a write transaction is a private copy
 #[verifier::external_body] pub struct Database { _p: u8 }
@@ -67,9 +74,16 @@ impl VxWriteTx {
     // open_table(TABLE) + insert(key, bytes)
     #[verifier::external_body]
     pub fn vx_insert(&mut self, key: &str, v: &[u8]) ensures final(self)@ == old(self)@.insert(key@, v@) { unimplemented!() }
+    // table.get(key).expect(..).unwrap().value() inside the write transaction: sees the transaction's own writes
+    #[verifier::external_body]
+    pub fn vx_get(&self, key: &str) -> (r: Vec<u8>) ensures self@.dom().contains(key@), r@ == self@[key@] { unimplemented!() }
+    // tx.abort().unwrap(): nothing is installed
+    #[verifier::external_body]
+    pub fn vx_abort(self) { unimplemented!() }
 }
 
 //@type vls-persist/src/kvv/redb.rs :: RedbKVVStore
+//@type vls-persist/src/kvv.rs :: KVV
 
 // ------------------------------------------------------------------ spec side
 pub open spec fn enc(version: u64, value: Seq<u8>) -> Seq<u8> { be8(version) + value }
@@ -144,6 +158,64 @@ impl RedbKVVStore {
 //@proof before /self\.db\.vx_commit\(tx\);/
         proof {
             assert(enc(version, value@).take(8) =~= be8(version));
+        }
+//@end
+
+//@fn vls-persist/src/kvv/redb.rs :: impl KVVStore for RedbKVVStore :: put_batch props=C16,C10
+//@sigsub /&self/ => &mut self
+    requires redb_inv(*old(self)), forall|i: int| 0 <= i < kvvs@.len() ==> (#[trigger] kvvs@[i]).1.1@.len() + 8 <= usize::MAX,
+    ensures
+        redb_inv(*final(self)),
+        // all or nothing
+        r.is_err() ==> final(self).versions.val@ == old(self).versions.val@ && final(self).db@ == old(self).db@,   //[C16.redb.batch-atomic] [C10.kvv-redb.batch-err-frame]
+        // an accepted batch never lowers a version (index and table move together: redb_inv)
+        forall|k: Seq<char>| old(self).versions.val@.dom().contains(k) ==> final(self).versions.val@.dom().contains(k)
+            && final(self).versions.val@[k] >= old(self).versions.val@[k],                                      //[C16.redb.batch-versions-never-decrease]
+        r.is_ok() ==> forall|i: int| 0 <= i < kvvs@.len() ==> !old(self).versions.val@.dom().contains((#[trigger] kvvs@[i]).0@)
+            || kvvs@[i].1.0 >= old(self).versions.val@[kvvs@[i].0@],                                            //[C16.redb.batch-rule]
+//@sub /let tx = self\.db\.begin_write\(\)\.vx_expect\(\);/ => let mut tx = self.db.vx_begin_write();
+//@sub /let mut table = tx\.open_table\(TABLE\)\.vx_expect\(\);/ => 
+//@sub /let existing = table\.get\(key\)\.vx_expect\(\)\.vx_expect\(\);/ => let existing = tx.vx_get(key);
+//@sub /if existing\.value\(\) != &vv \{/ => if !vx_vec_eq(&existing, &vv) {
+//@sub /table\.insert\(key, vv\.as_slice\(\)\)\.vx_expect\(\);/ => tx.vx_insert(key, vv.as_slice());
+//@sub /drop\(table\);/ => 
+//@sub /tx\.abort\(\)\.vx_expect\(\);/ => tx.vx_abort();
+//@sub /tx\.commit\(\)\.vx_expect\(\);/ => self.db.vx_commit(tx);
+//@sub /(?s)for \(key, value\) in staged_versions\.into_iter\(\) \{\s*self\.versions\.val\.insert\(key, value\);\s*\}/ => self.versions.val.vx_extend(staged_versions);
+//@loop 1 iter=it
+            invariant
+                *self == *old(self), redb_inv(*self),
+                forall|i: int| 0 <= i < kvvs@.len() ==> (#[trigger] kvvs@[i]).1.1@.len() + 8 <= usize::MAX,
+                // what is staged is in the transaction with its version in front; everything else is as committed
+                forall|k: Seq<char>| #[trigger] tx@.dom().contains(k) ==> (if staged_versions@.dom().contains(k) {
+                        tx@[k].len() >= 8 && tx@[k].take(8) == be8(staged_versions@[k])
+                    } else { self.db@.dom().contains(k) && tx@[k] == self.db@[k] }),
+                forall|k: Seq<char>| #[trigger] self.db@.dom().contains(k) ==> tx@.dom().contains(k),
+                forall|k: Seq<char>| #[trigger] staged_versions@.dom().contains(k) ==> tx@.dom().contains(k),
+                // unless a mismatch was flagged, every staged version is above the committed one and every entry seen so far
+                // respects the committed version
+                !found_version_mismatch ==> forall|k: Seq<char>| #[trigger] staged_versions@.dom().contains(k) ==>
+                    !self.versions.val@.dom().contains(k) || staged_versions@[k] > self.versions.val@[k],
+                !found_version_mismatch ==> forall|i: int| 0 <= i < it.index@ ==> !self.versions.val@.dom().contains((#[trigger] kvvs@[i]).0@)
+                    || kvvs@[i].1.0 >= self.versions.val@[kvvs@[i].0@],
+//@proof before /tx\.vx_insert\(key, vv\.as_slice\(\)\);/
+            proof { assert(enc(version, value@).take(8) =~= be8(version)); }
+//@proof before /self\.db\.vx_commit\(tx\);/
+        let ghost t_final = tx@;
+        let ghost st_final = staged_versions@;
+        let ghost v_old = self.versions.val@;
+//@proof before /^\s*Ok\(\(\)\)\s*$/
+        proof {
+            assert(self.db@ == t_final);
+            assert(self.versions.val@ == v_old.union_prefer_right(st_final));
+            assert forall|k: Seq<char>| #[trigger] self.versions.val@.dom().contains(k) <==> self.db@.dom().contains(k) by {
+                assert(v_old.dom().contains(k) <==> old(self).db@.dom().contains(k));
+            }
+            assert forall|k: Seq<char>| #[trigger] self.versions.val@.dom().contains(k) implies
+                self.db@[k].len() >= 8 && self.db@[k].take(8) == be8(self.versions.val@[k]) by {
+                assert(t_final.dom().contains(k));
+                assert(v_old.dom().contains(k) <==> old(self).db@.dom().contains(k));
+            }
         }
 //@end
 
